@@ -478,7 +478,7 @@ impl Prop for C14 {
         ]
     }
     fn cases(&self, tier: Tier) -> u32 {
-        tier.pick(300, 4000)
+        tier.pick(500, 4000)
     }
     fn min_nontrivial(&self, tier: Tier) -> usize {
         tier.pick(300, 3000)
